@@ -1,5 +1,6 @@
 import BbRe.Model.SchedTreeCheck
 import BbRe.Lemmas.SchedTreePrimQueue
+import BbRe.Lemmas.SchedTreePrimRefresh
 import BbRe.Lemmas.SchedTreePrimPark
 import BbRe.Lemmas.SchedTreePrimCreate
 import BbRe.Lemmas.SchedTreePrimIdle
